@@ -5,23 +5,23 @@ HERE = os.path.dirname(os.path.dirname(os.path.abspath(__file__)))
 TB = ("trusted base: TLC and the TLA+ CommunityModules (Json, IOUtils); the transcription of the library's documented behaviour in spec/*.tla; "
       "the recording hook (construct/lib/veriftrace.py) and the harness encoder of Python values; CPython's io.BytesIO and struct")
 CHECKS = {
- "C01": ("trace validation + TLC predicate C01Sym on recorded build/parse sessions; premise (value domain) decided by Sem", "4.C01",
+ "C01": ("trace validation + TLC predicate C01Sym on recorded build/parse sessions; premise (value domain) decided by Sem; TLC model checking of the Sem-driven abstract machine over a bounded program universe (MC_CAM) whose sessions are then stepped through the real library (spec -> code) [theorems Rebuild / Normal on an explicit fragment]", "4.C01",
          "Sessions build(v); parse(bytes) recorded from the real library on random sequential programs to depth 4 and domain-directed values; TLC evaluates C01Sym on the recorded results for every session whose program is well-formed and whose value lies in the domain (decided in the model). Bounded, sampled exploration with an exact oracle: the right level for a for-all over programs x values, where exhaustive enumeration is only possible for tiny scopes."),
- "C02": ("TLC predicates C02Canon / C02Self on recorded parse/build/parse/build sessions", "4.C02",
+ "C02": ("TLC predicates C02Canon / C02Self on recorded parse/build/parse/build sessions; TLC model checking of the Sem-driven abstract machine over a bounded program universe (MC_CAM) whose sessions are then stepped through the real library (spec -> code) [theorems Rebuild / Normal / Tight]", "4.C02",
          "Four-call normalisation sessions from arbitrary, canonical and mutated inputs recorded from the real library; TLC evaluates idempotence and canonical reproduction on the recorded results where the model itself normalises the input."),
  "C03": ("TLC trace validation of recorded calls against the TLA+ reference semantics Sem/Codecs; TLC cross-check Codecs vs RefFormats (MC_Codecs)", "4.C03",
          "Every recorded call (value built, bytes parsed) of every integer/float alias and core construct is compared by TLC with the independent TLA+ reference: bytes, value, consumption, acceptance. Exhaustive for 8/16-bit domains and short inputs over the boundary alphabet, boundary+random for wide domains (limb arithmetic, no 32-bit limit). The TLA+ codecs are themselves checked against closed forms by TLC (MC_Codecs)."),
- "C04": ("TLC predicate C04Equiv on recorded pairs (same call on the interpreter and on the compiled instance) + trace validation of the interpreter side; rendering faithfulness by MC_C11", "4.C04",
+ "C04": ("TLC predicate C04Equiv on recorded pairs (same call on the interpreter and on the compiled instance) + trace validation of the interpreter side; rendering faithfulness by MC_C11; TLC model checking of the Sem-driven abstract machine over a bounded program universe (MC_CAM) whose sessions are then stepped through the real library (spec -> code) on interpreter and compiled instance", "4.C04",
          "Every compilable program (random, systematic wrapper x leaf universe, expression-heavy conditionals / lengths / counts with string and bytes constants, unary and reflected operators, dependent probe members after every composite) is compiled and every accepted input / buildable value / sizeof is run on both; TLC evaluates equality of value, position and bytes on each recorded pair."),
- "C05": ("TLC predicates C05Total / C05Exact on recorded sizeof/build/parse sessions + trace validation of sizeof", "4.C05",
+ "C05": ("TLC predicates C05Total / C05Exact on recorded sizeof/build/parse sessions + trace validation of sizeof; TLC model checking of the Sem-driven abstract machine over a bounded program universe (MC_CAM) whose sessions are then stepped through the real library (spec -> code) [theorems Z-total / Z-exact, negative control]", "4.C05",
          "sizeof with keys present/absent and measured stream advances of build_stream/parse_stream at offsets, recorded from the real library; TLC evaluates totality (integer or SizeofError) and exactness."),
- "C06": ("TLC: CAM root clauses (only ConstructError, termination), C06Prefix, C06Fault on recorded runs incl. injected stream faults at every operation index", "4.C06",
+ "C06": ("TLC: CAM root clauses (only ConstructError, termination), C06Prefix, C06Fault on recorded runs incl. injected stream faults at every operation index; TLC model checking of the Sem-driven abstract machine over a bounded program universe (MC_CAM) whose sessions are then stepped through the real library (spec -> code) [theorems Closed / Prefix]; huge length fields judged by the machine's root clause", "4.C06",
          "Fault enumeration on the real library: every truncation offset of canonical encodings, and every index k of the k-th stream operation failing in four modes for parse and build; TLC judges the recorded outcomes (no foreign exception, StreamError where no construct may recover, no value from a strict prefix) and validates acceptance/rejection classes against Sem."),
  "C07": ("TLC trace validation against Sem/Context rules on a shape x path x position universe of probes, for parse, build and sizeof", "4.C07",
          "All recorded probe values (Computed / Bytes / Array over this.x, this._.x, _root, _params, _index, mode flags) in nests of the seven scope/repeat constructs with transparent wrappers are compared by TLC with the frame discipline of the specification, in all three operations."),
- "C08": ("TLC trace validation of every recorded position, Tell/RawCopy offset and inner value in delimiter nests against Sem/Streams", "4.C08",
+ "C08": ("TLC trace validation of every recorded position, Tell/RawCopy offset and inner value in delimiter nests against Sem/Streams; TLC model checking of the Sem-driven abstract machine over a bounded program universe (MC_CAM) whose sessions are then stepped through the real library (spec -> code)", "4.C08",
          "Delimiter nests to depth 4 at start offsets 0..3 with trivial member codecs: every enter/leave position (absolute coordinates), every inner greedy value and every Tell/RawCopy/Pointer observation recorded from the real library must equal the specification's."),
- "C09": ("TLC replay of recorded behaviours through the pushdown machine CAM.tla (PeekRestores, PointerRestores, alternative/element/union clauses) + trace validation at recovering nodes", "4.C09",
+ "C09": ("TLC replay of recorded behaviours through the pushdown machine CAM.tla (PeekRestores, PointerRestores, alternative/element/union clauses) + trace validation at recovering nodes; TLC model checking of the Sem-driven abstract machine over a bounded program universe (MC_CAM) whose sessions are then stepped through the real library (spec -> code); repository tests recorded and replayed through the machine (thorough)", "4.C09",
          "Machine-level clauses evaluated by TLC at every leave step of every recorded behaviour (no member semantics needed), plus Sem conformance of positions and values at Peek/Pointer/Select/GreedyRange/Union nodes, over all short inputs for sampled programs and random longer ones, start offsets 0..2."),
  "C13": ("TLC trace validation at constrained nodes (Const, validators, Enum/FlagsEnum/Mapping, Error inside recovering constructs), one-byte domains exhausted", "4.C13",
          "Acceptance, value and bytes in both directions for every one-byte input and value and all label spellings, and ExplicitError never absorbed, compared by TLC with Sem."),
@@ -31,7 +31,7 @@ CHECKS = {
          "Design level: TLC enumerates every expression tree to the depth bound over the full operator table and checks that the rendering, re-parsed under Python's precedence rules, denotes the same function in all small environments (and must find the counter-example under the snapshot's rule). Conformance: the same trees built through the real overloads, evaluated by the library and by Python's own eval of the repr."),
  "C12": ("TLC predicate C12Equiv on recorded pairs (same call on both sides of each documented law and operator spelling)", "4.C12",
          "Every law instance (widths, signedness, swapping, aliases, macros, enum classes vs keywords, display wrappers, operator spellings) is run on both sides through the real factories on all short inputs over the boundary alphabet and on in- and out-of-range values; TLC evaluates extensional equality on each recorded pair."),
- "C14": ("TLC replay through CAM.tla (RawCopy clauses) + TLC predicates C14Verifies / C14Detects / C14SameBytes; hashes uninterpreted with logged graphs", "4.C14",
+ "C14": ("TLC replay through CAM.tla (RawCopy clauses) + TLC predicates C14Verifies / C14Detects / C14SameBytes; hashes uninterpreted with logged graphs; TLC model checking of the Sem-driven abstract machine over a bounded program universe (MC_CAM) whose sessions are then stepped through the real library (spec -> code); repository tests replayed through the machine (thorough)", "4.C14",
          "RawCopy extents, offsets and data at every RawCopy leave step of every recorded behaviour (substreams, non-zero offsets); checksums built then parsed; every single-bit corruption of covered region and digest must raise ChecksumError."),
  "C15": ("TLC trace validation against independent definitions of XOR (key cycled), bit rotation of groups, byte/bit reversal; compression codecs uninterpreted", "4.C15",
          "Exhaustive-by-grid keys and rotation amounts x groups (sampled in quick), swapped constructs of size 1..16, four stdlib codecs; built bytes and the inner construct's view on parse are compared by TLC with the definitions in Codecs.tla."),
@@ -39,7 +39,7 @@ CHECKS = {
          "Design level: every access history (any order, repetitions) to the bound over member lists mixing fixed, keyword-sized, length-prefixed and unsizable members: LazyEqualsEager, AccessIsInvisible, SameFinalPosition, CacheSound. Conformance: all permutations for <= 4 members and random histories with repetitions, by name / attribute / index / iteration / slice, performed on the real lazy objects with value and stream position recorded after every access; lazies read by later siblings during the surrounding parse compared with their eager twin."),
  "C17": ("TLC model checking of Session.tla (pool sharing members, two threads, all interleavings at boundary granularity; memoising member as negative control) + TLC predicates C17Same / C17Entry / C17Offset / C17Frozen on recorded histories, forced schedules and entry points", "4.C17",
          "Design level: Pure, Repeatable, Frozen over all interleavings of calls on a pool sharing members. Conformance: random call histories (parse/build/sizeof/compile, succeeding and failing) with every repetition compared and object-graph digests before/after each call; two-thread interleavings forced through the recording hook acting as a gate, 8-thread free-running stress; all entry points."),
- "C18": ("TLC replay through CAM.tla (clause C18.path at every failing leave step, C18.path-kept) + TLC predicate C18Trunc on truncation sessions", "4.C18",
+ "C18": ("TLC replay through CAM.tla (clause C18.path at every failing leave step, C18.path-kept) + TLC predicate C18Trunc on truncation sessions; repository tests recorded and replayed through the machine (thorough)", "4.C18",
          "Every failing recorded behaviour (all truncation offsets of canonical encodings of nested named structures, every member made unbuildable in turn, random inputs) is replayed by TLC: the path equals the operation prefix plus the Renamed names on the stack where the error was created and is kept while propagating; truncation at j names the members whose recorded extent contains j."),
  "C20": ("TLC model checking of the container heap model (spec/Containers.tla, Hex.tla; MC_C20: equivalence laws, copy independence, hexundump o hexdump) + TLC replay (TraceC20) of operation histories executed on real containers with full three-view projections", "4.C20",
          "Design level: all operation histories to the bound on heaps with public / private / method-shadowing keys and nested containers: Eq reflexive, symmetric, transitive, order- and private-insensitive; shallow copies independent at top level, deep copies and pickle round trips disjoint. Conformance: random histories (set / setattr / del / pop / clear / update / append / copy / deepcopy / pickle with every protocol / search) on real objects, after every step the whole object graph projected through attributes, keys and iteration with identities and equality results, replayed by TLC on the model; hexdump text compared character by character and read back."),
@@ -63,7 +63,9 @@ def main():
      "engines": [
       {"name": "cam-trace", "path": "/verif/spec/Trace.tla", "kind_free_text": "TLC trace validation: construct-boundary behaviours recorded from the real library (hook + harness) are compared with the behaviour Sem prescribes; property predicates of spec/Props.tla evaluated on the recorded sessions", "serves_properties": sorted(CHECKS)},
       {"name": "cam-machine", "path": "/verif/spec/CAM.tla", "kind_free_text": "TLC replay of recorded behaviours through the pushdown machine, one boundary event per state, machine-level clauses at every leave step", "serves_properties": ["C06", "C09", "C14", "C18"]},
-      {"name": "mc-design", "path": "/verif/spec", "kind_free_text": "TLC model checking of the specification alone on bounded universes (MC_Codecs, MC_C11, MC_C16, MC_C17, MC_C20) with negative controls", "serves_properties": ["C03", "C04", "C11", "C16", "C17", "C20"]},
+      {"name": "mc-design", "path": "/verif/spec", "kind_free_text": "TLC model checking of the specification alone on bounded universes (MC_Codecs, MC_C11, MC_C16, MC_C17, MC_C20, MC_CAM) with negative controls", "serves_properties": ["C01", "C02", "C03", "C04", "C05", "C06", "C08", "C09", "C11", "C14", "C16", "C17", "C20"]},
+      {"name": "spec-to-code", "path": "/verif/harness/cvh/speccode.py", "kind_free_text": "sessions explored by TLC on MC_CAM (Universe.tla) are performed on the real objects with the values and bytes the specification produced, recorded and validated against Sem", "serves_properties": ["C01", "C02", "C04", "C05", "C06", "C08", "C09", "C14"]},
+      {"name": "repository-tests", "path": "/verif/harness/cvh/pytest_plugin.py", "kind_free_text": "the repository's own tests run under the recording hook; every top-level call replayed through the pushdown machine (CAM.tla)", "serves_properties": ["C09", "C14", "C18"]},
       {"name": "trace-expr / trace-c20 / trace-ksy", "path": "/verif/spec/TraceExpr.tla", "kind_free_text": "TLC validation of recorded expression evaluations, container operation histories and exported KSY documents against ExprRender.tla / Containers.tla / Ksy.tla", "serves_properties": ["C11", "C19", "C20"]}],
      "checks": [],
      "notes": "All checks: ./check <id> [--tier quick|thorough] [--replay PATH]; exit 0 held / 1 VIOLATION / 2 machinery failure. See DESIGN.md.",
